@@ -1085,7 +1085,10 @@ class HLGExpr(Expr):
 class _HLGExprGroup(HLGExpr):
     # Identical to HLGExpr
     # Used internally to determine how output keys are supposed to be returned
-    pass
+    # ``positions`` are the places the grouped members had in the sequence they
+    # were taken from, so that the output keys can be returned in that order
+    _parameters = HLGExpr._parameters + ["positions"]
+    _defaults = {**HLGExpr._defaults, "positions": None}
 
 
 class _HLGExprSequence(Expr):
@@ -1111,12 +1114,16 @@ class _HLGExprSequence(Expr):
         from dask.highlevelgraph import HighLevelGraph
 
         groups = toolz.groupby(
-            lambda x: x.low_level_optimizer if isinstance(x, HLGExpr) else None,
-            self.operands,
+            lambda ix: (
+                ix[1].low_level_optimizer if isinstance(ix[1], HLGExpr) else None
+            ),
+            enumerate(self.operands),
         )
         exprs = []
         changed = False
-        for optimizer, group in groups.items():
+        for optimizer, members in groups.items():
+            positions = [i for i, _ in members]
+            group = [x for _, x in members]
             if len(group) > 1:
                 graphs = [expr.hlg for expr in group]
 
@@ -1127,6 +1134,7 @@ class _HLGExprSequence(Expr):
                     low_level_optimizer=optimizer,
                     output_keys=[v.__dask_keys__() for v in group],
                     postcompute=[g.postcompute for g in group],
+                    positions=positions,
                 )
                 exprs.append(hlg_group)
             else:
@@ -1184,12 +1192,24 @@ class _HLGExprSequence(Expr):
 
     def __dask_keys__(self) -> list:
         all_keys = []
+        placed = {}
         for op in self.operands:
             if isinstance(op, _HLGExprGroup):
-                all_keys.extend(op.__dask_keys__())
+                if op.positions is not None:
+                    placed.update(zip(op.positions, op.__dask_keys__()))
+                else:
+                    all_keys.extend(op.__dask_keys__())
             else:
                 all_keys.append(op.__dask_keys__())
-        return all_keys
+        if not placed:
+            return all_keys
+        # Grouping by optimizer must not reorder the outputs: callers match the
+        # keys with their collections by position
+        rest = iter(all_keys)
+        return [
+            placed[i] if i in placed else next(rest)
+            for i in range(len(all_keys) + len(placed))
+        ]
 
 
 class _ExprSequence(Expr):
